@@ -137,12 +137,49 @@ def gen_handlers(rng, nsel, ndoc, mode):
     return ";".join(entries) or "-"
 
 
+def nested_doc(rng):
+    """deeply nested same-name elements with mis-nesting: several open elements with removed content /
+    deferred end-tag edits at once, popped together by one end tag or never closed"""
+    names = rng.sample(["div", "span", "p", "b", "li", "x-y", "section"], rng.choice([1, 2, 3]))
+    s = ""
+    open_ = []
+    for _ in range(rng.randrange(3, 14)):
+        r = rng.random()
+        if r < 0.5:
+            n = rng.choice(names)
+            s += "<%s%s>" % (sel.rand_case(rng, n), rng.choice(["", "", " id=x", " class='foo bar'", " a"]))
+            open_.append(n)
+        elif r < 0.8 and open_:
+            n = open_.pop() if rng.random() < 0.6 else rng.choice(open_)
+            s += "</%s>" % n
+        elif r < 0.9:
+            s += rng.choice(["t", "<!--c-->", "<br>", "<img/>", " "])
+        else:
+            s += "</%s>" % rng.choice(names)
+    return s, names
+
+
 def gen_case(rng, tier, mode):
+    shape = rng.random()
     doc, evs = document(rng, tier)
     tree = sel.doc_tree(evs, False) if evs else None
     nsel = rng.choice([0, 1, 1, 1, 2, 2, 3, 4])
     ndoc = rng.choice([0, 0, 0, 1, 1, 2])
     sels = [gen_selector(rng, evs, tree) for _ in range(nsel)]
+    if shape < 0.04:
+        # typed-counter shapes of gen/sel.py (multi-level pops with :nth-of-type selectors)
+        sels, evs = sel.typed_counter_case(rng)
+        doc = sel.html_of(evs)
+        nsel = len(sels)
+    elif shape < 0.07:
+        # many registered selectors: match-id sets beyond one / two machine words
+        nsel = rng.choice([31, 32, 33, 63, 64, 65, 66, 70])
+        sels = [gen_selector(rng, evs, tree) if rng.random() < 0.5 else simple_sellist(rng) for _ in range(nsel)]
+    elif shape < 0.17:
+        s, names = nested_doc(rng)
+        doc = s.encode()
+        nsel = rng.choice([1, 2, 3])
+        sels = [[[[("t", rng.choice(names))]]] if rng.random() < 0.8 else [[[("u",)]]] for _ in range(nsel)]
     handlers = gen_handlers(rng, nsel, ndoc, mode)
     cuts = lex.cuts_for(rng, len(doc))
     strict = int(rng.random() < 0.35)
